@@ -82,7 +82,7 @@ func genLife(t *tape.Tape) Life {
 
 func (C17) Gen(t *tape.Tape, tier string) any {
 	sc := &C17Scenario{}
-	shapes := []gen.Shape{gen.ShapeFlat, gen.ShapeNested, gen.ShapeLogical}
+	shapes := []gen.Shape{gen.ShapeFlat, gen.ShapeNested, gen.ShapeLogical, gen.ShapeDyn, gen.ShapeGen}
 	sc.Subject = []string{"writer", "buffer", "sorting"}[t.Weighted(5, 2, 2)]
 	sc.Plan = GenWritePlan(t, shapes, 800)
 	if t.Chance(1, 3) {
@@ -96,6 +96,7 @@ func (C17) Gen(t *tape.Tape, tier string) any {
 	case "sorting":
 		sc.SortRows = int64([]int{100, 1, 7, 50, 1000}[t.Draw(5)])
 		sc.Plan.W.Sorting = []gen.SortCol{{Path: []string{"id"}, Desc: t.Bool()}}
+		sc.Plan.W.DropDuplicates = t.Bool() // state kept across sort runs and lives
 		sc.Plan.WriterKind = gen.WGeneric
 	}
 	n := t.Weighted(1, 4, 3, 2)
